@@ -51,6 +51,10 @@ def gen_cases(ctx):
         ck = rng.choice([None, None, "real"])
         terms = [rand_string(rng, n, ck) for _ in range(k)]
         mk(rng.choice(["sum_apply", "expect", "expect"]), n, terms, style=rng.choice(["generic", "normalised"]))
+    # expectation values on registers above the 64-amplitude threshold of the parallel inner product, complex coefficients
+    for n in (7, 7, 8):
+        mk("expect", n, [rand_string(rng, n, "complex") for _ in range(rng.randrange(2, 5))], style="normalised")
+        mk("expect", n, [rand_string(rng, n, "complex")], style="generic")
     # long sums: lengths around the block sizes a parallel accumulation would use (63..130 terms, not multiples of 16)
     for k in ([63, 64, 65, 70, 90, 127] if not ctx.thorough() else [63, 64, 65, 70, 90, 127, 129, 200, 257]):
         n = rng.randrange(3, 6)
